@@ -172,17 +172,63 @@ pub fn run(a: &ShardArgs) -> serde_json::Value {
             samples.push(json!({"case": format!("{c:?}")}));
         }
     }
+    // end to end: the merged builder / CLI values as the runner really applies them
+    let e2e = crate::families::fam_resolve(crate::families::Tier::Quick);
+    let mut stats = crate::exec::ExploreStats::default();
+    for (i, cfg) in e2e.iter().enumerate() {
+        if !a.mine(i) {
+            continue;
+        }
+        let mut found = false;
+        crate::exec::explore(cfg, &crate::exec::stream_subject, cfg.max_execs, &mut stats, &mut |tr| {
+            for v in crate::oracles::check_all(cfg, tr) {
+                let relevant = matches!(
+                    v.key.as_str(),
+                    "retries-field" | "delay" | "over-budget" | "spurious-retry" | "missing-retry"
+                        | "over-limit" | "not-work-conserving" | "dispatch-after-failure"
+                        | "cut-without-final-failure" | "user-code-over-limit"
+                );
+                if relevant && !found && violations.len() < 30 {
+                    found = true;
+                    violations.push(json!({
+                        "engine": "hist", "property": "C18", "tier": a.tier, "key": format!("e2e-{}", v.key),
+                        "e2e_index": i, "schedule": tr.schedule(),
+                        "message": format!("end to end ({}): [{}] {}", cfg.name, v.prop, v.msg),
+                    }));
+                }
+            }
+            !found
+        });
+    }
+    evaluations += stats.execs;
+    nontrivial += stats.execs;
     json!({
         "property": "C18", "tier": a.tier,
-        "total_configs": cs.len(), "configs_done": evaluations, "configs_skipped_budget": 0,
+        "total_configs": cs.len() + e2e.len(), "configs_done": evaluations, "configs_skipped_budget": 0,
         "evaluations": evaluations, "distinct_nontrivial": nontrivial,
-        "rule": "complete product: retry tag in {none,@retry,@retry(3),@retry.after(2s),@retry(3).after(2s)} on scenario x rule x feature (with and without a rule) x --retry {none,5,0} x --retry-after {none,7s} x --retry-tag-filter {none,@x,not @x,@x and @y} x placement of x (none/scenario/rule/feature) and y; builder values enter through the same merged Cli and are checked end-to-end by Engine A (family `retry`, sources tag/cli/builder/both); non-trivial = at least two sources compete",
+        "rule": "complete product: retry tag in {none,@retry,@retry(3),@retry.after(2s),@retry(3).after(2s)} on scenario x rule x feature (with and without a rule) x --retry {none,5,0} x --retry-after {none,7s} x --retry-tag-filter {none,@x,not @x,@x and @y} x placement of x (none/scenario/rule/feature) and y; plus, end to end under the gate executor, 1500 configurations with differing builder / CLI retries, delays, filters, limits and fail-fast flags (family `resolve`): budget on the first event, delay, limit and fail-fast behaviour must be what the precedence resolves to; non-trivial = at least two sources compete",
         "exhaustive": true,
         "violations": violations, "samples": samples,
     })
 }
 
 pub fn replay(j: &serde_json::Value) -> i32 {
+    if let Some(i) = j["e2e_index"].as_u64() {
+        let e2e = crate::families::fam_resolve(crate::families::Tier::Quick);
+        let cfg = &e2e[i as usize];
+        let sched: Vec<usize> =
+            j["schedule"].as_array().unwrap().iter().map(|x| x.as_u64().unwrap() as usize).collect();
+        println!("{}", cfg.describe());
+        let tr = crate::exec::execute(cfg, &crate::exec::stream_subject, &sched);
+        for l in tr.render() {
+            println!("  {l}");
+        }
+        let vs = crate::oracles::check_all(cfg, &tr);
+        for v in &vs {
+            println!("violation {} [{}]: {}", v.prop, v.key, v.msg);
+        }
+        return i32::from(!vs.is_empty());
+    }
     let cs = cases();
     let c = &cs[j["case_index"].as_u64().unwrap() as usize];
     println!("{c:?}");
